@@ -105,6 +105,9 @@ where
     guard(|| {
         let mut obs = Obs::default();
         let mut ctx = UnwindContext::<usize, S>::new_in();
+        if PREUSE.with(|p| p.get()) {
+            preuse_context(&mut ctx);
+        }
         let mut table = match fde.rows(sec, bases, &mut ctx) {
             Ok(t) => t,
             Err(e) => {
@@ -145,6 +148,76 @@ where
         }
         obs
     })
+}
+
+thread_local! {
+    /// When set, `run_table` first uses its context for the FDEs of `dirty_section()`.
+    pub static PREUSE: std::cell::Cell<bool> = const { std::cell::Cell::new(false) };
+}
+
+/// A small `.debug_frame` (32-bit, little endian, 4-byte addresses) whose evaluation leaves as
+/// much behind in a context as possible: CIE A with two initial register rules, a CFA and an
+/// argument size on the bottom row, FDE A1 with two unbalanced remember_state; CIE B whose
+/// initial instructions set CFA, argument size and a rule and then fail (restore_state on an
+/// empty stack) without having pushed anything, FDE B1.
+pub fn dirty_section() -> Vec<u8> {
+    fn entry(out: &mut Vec<u8>, body: &[u8]) {
+        let mut b = body.to_vec();
+        while (b.len() + 4) % 4 != 0 {
+            b.push(0);
+        }
+        out.extend_from_slice(&(b.len() as u32).to_le_bytes());
+        out.extend_from_slice(&b);
+    }
+    let mut out = vec![];
+    let cie = |init: &[u8]| {
+        let mut b = vec![0xff, 0xff, 0xff, 0xff, 1, 0, 1, 0x78, 16];
+        b.extend_from_slice(init);
+        b
+    };
+    let fde = |cie_off: u32, addr: u32, insns: &[u8]| {
+        let mut b = cie_off.to_le_bytes().to_vec();
+        b.extend_from_slice(&addr.to_le_bytes());
+        b.extend_from_slice(&0x10u32.to_le_bytes());
+        b.extend_from_slice(insns);
+        b
+    };
+    // CIE A: def_cfa r7,8; GNU_args_size 16; offset r4,2; offset r5,3
+    entry(&mut out, &cie(&[0x0c, 7, 8, 0x2e, 16, 0x84, 2, 0x85, 3]));
+    let a1 = out.len();
+    // FDE A1: advance 1; remember; def_cfa_offset 32; GNU_args_size 8; advance 1; remember; undefined r4
+    entry(&mut out, &fde(0, 0x1000, &[0x41, 0x0a, 0x0e, 32, 0x2e, 8, 0x41, 0x0a, 0x07, 4]));
+    let b = out.len();
+    // CIE B: def_cfa r7,8; GNU_args_size 16; offset r4,2; restore_state (fails: nothing remembered)
+    entry(&mut out, &cie(&[0x0c, 7, 8, 0x2e, 16, 0x84, 2, 0x0b]));
+    let _ = a1;
+    entry(&mut out, &fde(b as u32, 0x2000, &[0x41, 0x0e, 16]));
+    out
+}
+
+/// Evaluate every FDE of `dirty_section()` on `ctx` (errors ignored), as an earlier user of
+/// the context would have.
+pub fn preuse_context<S: UnwindContextStorage<usize>>(ctx: &mut UnwindContext<usize, S>) {
+    let bytes = dirty_section();
+    let mut sec = gimli::read::DebugFrame::new(&bytes, RunTimeEndian::Little);
+    sec.set_address_size(4);
+    let bases = BaseAddresses::default();
+    let mut it = sec.entries(&bases);
+    while let Ok(Some(e)) = it.next() {
+        if let gimli::read::CieOrFde::Fde(p) = e {
+            if let Ok(f) = p.parse(gimli::read::DebugFrame::cie_from_offset) {
+                if let Ok(mut t) = f.rows(&sec, &bases, ctx) {
+                    let mut n = 0;
+                    while let Ok(Some(_)) = t.next_row() {
+                        n += 1;
+                        if n > 16 {
+                            break;
+                        }
+                    }
+                }
+            }
+        }
+    }
 }
 
 pub fn err_matches(g: &gimli::Error, m: &MErr) -> bool {
